@@ -692,10 +692,271 @@ Definition put_spec (o : spec_outcome) : val :=
 
 Definition is_ok (s : res unit) : bool := match s with Ok _ => true | _ => false end.
 
+(* ================================================================== second round (additive)
+   1. generic connect / dispatch / spec over the parse and match functions;
+   2. multi-atom placeholder regexes: {n:\d{4}-\d{2}} is a run of quantified atoms.  In the AST it
+      is a run of consecutive [Hole]s carrying the SAME name (distinct placeholders can never share
+      a name: re refuses the pattern), the matcher and the enumeration are the ones above, and the
+      dictionary entries of such a run are concatenated by [merge_dict];
+   3. a specification that also speaks when a declaration does not compile. *)
+
+Definition connect_with (parse : text -> res pat) (m : mapper) (id : nat) (d : decl) : mapper * res unit :=
+  let rl := match assoc_get (routes m) (d_name d) with
+            | Some old => remove_id (r_id old) (routelist m)
+            | None => routelist m
+            end in
+  match parse (d_src d) with
+  | Ok p =>
+      let r := mkRoute id (d_name d) p (d_preds d) in
+      (if d_static d
+       then mkMapper rl (statics m ++ [r]) (assoc_set (routes m) (d_name d) r)
+       else mkMapper (rl ++ [r]) (statics m) (assoc_set (routes m) (d_name d) r), Ok tt)
+  | CompileError => (mkMapper rl (statics m) (routes m), CompileError)
+  | Unsupported => (mkMapper rl (statics m) (routes m), Unsupported)
+  | FactsDrift => (mkMapper rl (statics m) (routes m), FactsDrift)
+  end.
+
+Fixpoint connect_all_with (parse : text -> res pat) (m : mapper) (id : nat) (ds : list decl)
+  : mapper * list (res unit) :=
+  match ds with
+  | [] => (m, [])
+  | d :: r => let '(m1, st) := connect_with parse m id d in
+              let '(m2, sts) := connect_all_with parse m1 (S id) r in (m2, st :: sts)
+  end.
+
+Definition dispatch_request_with (mt : pat -> text -> option matchdict) (m : mapper) (method : text)
+  (raw : option text) : outcome * list (nat * nat) :=
+  match request_path raw with
+  | RErr => (ODecodeError, [])
+  | RPath path =>
+      match dispatch_with mt method (routelist m) path with
+      | (Some (r, d), tr) => (OMatch r d, tr)
+      | (None, tr) => (ONone, tr)
+      end
+  end.
+
+Definition qualifies_with (sm : pat -> text -> option matchdict) (method path : text) (r : route) : bool :=
+  match sm (r_pat r) path with
+  | Some d => forallb (pred_ok method d) (r_preds r)
+  | None => false
+  end.
+Definition spec_dispatch_with (sm : pat -> text -> option matchdict) (method : text) (rs : list route)
+  (path : text) : option (route * matchdict) :=
+  match find (qualifies_with sm method path) rs with
+  | Some r => match sm (r_pat r) path with Some d => Some (r, d) | None => None end
+  | None => None
+  end.
+
+(* declarations that do not compile declare nothing -- but, being declarations of their name,
+   they still replace an earlier route of that name (see [last_wins]) *)
+Fixpoint spec_routes_with (parse : text -> res pat) (ds : list (nat * decl)) : list route :=
+  match ds with
+  | [] => []
+  | (i, d) :: r =>
+      match parse (d_src d) with
+      | Ok p => if d_static d then spec_routes_with parse r
+                else mkRoute i (d_name d) p (d_preds d) :: spec_routes_with parse r
+      | _ => spec_routes_with parse r
+      end
+  end.
+Definition sup_with (parse : text -> res pat) (ds : list decl) : bool :=
+  forallb (fun d => match parse (d_src d) with Unsupported | FactsDrift => false | _ => true end) ds.
+Definition spec_request_with (parse : text -> res pat) (sm : pat -> text -> option matchdict)
+  (ds : list decl) (method : text) (raw : option text) : spec_outcome :=
+  if negb (sup_with parse ds) then SNothing else
+  match request_path raw with
+  | RErr => SDecodeError
+  | RPath path =>
+      match spec_dispatch_with sm method (spec_routes_with parse (last_wins (number 0 ds))) path with
+      | Some (r, d) => SMatch r d
+      | None => SNone
+      end
+  end.
+
+(* ---- multi-atom placeholder regexes *)
+(* quantifier in front of [s] (none: exactly one); a second quantifier character right after it
+   (lazy, possessive, multiple repeat) is outside the sublanguage *)
+Definition quant_char (c : N) : bool := (c =? 43)%N || (c =? 42)%N || (c =? 63)%N || (c =? 123)%N.
+Definition no_second_quant (s : text) : bool := match s with c :: _ => negb (quant_char c) | [] => true end.
+
+(* text up to and including the first closing brace *)
+Fixpoint upto_rbrace (s : text) : option (text * text) :=
+  match s with
+  | [] => None
+  | c :: r => if (c =? c_rbrace)%N then Some ([c], r)
+              else match upto_rbrace r with Some (a, b) => Some (c :: a, b) | None => None end
+  end.
+
+Definition parse_quant_m (s : text) : option ((nat * option nat) * text) :=
+  match s with
+  | [] => Some ((1, Some 1), [])
+  | c :: r =>
+      if (c =? 43)%N then (if no_second_quant r then Some ((1, None), r) else None)
+      else if (c =? 42)%N then (if no_second_quant r then Some ((0, None), r) else None)
+      else if (c =? 63)%N then (if no_second_quant r then Some ((0, Some 1), r) else None)
+      else if (c =? 123)%N then
+        match upto_rbrace r with
+        | Some (q, rest) =>
+            match parse_quant (c :: q) with
+            | Some lohi => if no_second_quant rest then Some (lohi, rest) else None
+            | None => None
+            end
+        | None => None
+        end
+      else Some ((1, Some 1), s)
+  end.
+
+(* atoms with quantifiers up to the end of the text; fuel = length of the text (every atom
+   consumes a character; running out of fuel cannot happen and answers None) *)
+Fixpoint parse_atoms (fuel : nat) (s : text) : option (list hre) :=
+  match s with
+  | [] => Some []
+  | _ =>
+      match fuel with
+      | O => None
+      | S k =>
+          match parse_atom s with
+          | Some (c, r) =>
+              match parse_quant_m r with
+              | Some ((lo, hi), r2) =>
+                  match parse_atoms k r2 with Some l => Some (mkHre c lo hi :: l) | None => None end
+              | None => None
+              end
+          | None => None
+          end
+      end
+  end.
+Definition parse_reg_m (s : text) : option (list hre) :=
+  match parse_atoms (List.length s) s with
+  | Some [] => None              (* the empty regex is not modelled *)
+  | o => o
+  end.
+
+Definition piece_item_m (dflt : option (list hre)) (p : piece) : res (list text * list item) :=
+  match p with
+  | PLit [] => Ok ([], [])
+  | PLit t => Ok ([], [Lit t])
+  | PHole body =>
+      let '(name, reg) := split_colon body in
+      let hs := match reg with Some r => parse_reg_m r | None => dflt end in
+      match hs with
+      | None => Unsupported
+      | Some hs => match name_check name with
+                   | Ok _ => Ok ([name], map (Hole name) hs)
+                   | CompileError => CompileError
+                   | Unsupported => Unsupported
+                   | FactsDrift => FactsDrift
+                   end
+      end
+  end.
+
+Fixpoint seq_items_m (l : list (res (list text * list item))) : res (list text * list item) :=
+  match l with
+  | [] => Ok ([], [])
+  | x :: r =>
+      match x, seq_items_m r with
+      | Unsupported, _ | _, Unsupported => Unsupported
+      | FactsDrift, _ | _, FactsDrift => FactsDrift
+      | CompileError, _ | _, CompileError => CompileError
+      | Ok (n, i), Ok (ns, is) => Ok (n ++ ns, i ++ is)
+      end
+  end.
+
+(* r2 = the pattern text after the old-style rewrite and with its leading slash *)
+Definition normalise (O : oracle) (src : text) : text :=
+  let r1 := if has_old src && negb (has_brace src) then old_sub O src false else src in
+  if startswith [47%N] r1 then r1 else 47%N :: r1.
+(* route text and remainder name *)
+Definition split_star (O : oracle) (r2 : text) : text * text :=
+  match rsplit_star r2 with
+  | Some (a, b) => if word_then_end O b then (a, b) else (r2, [])
+  | None => (r2, [])
+  end.
+
+Definition parse_core_m (O : oracle) (dflt : option (list hre)) (src : text) : res pat :=
+  let '(r3, rem) := split_star O (normalise O src) in
+  match seq_items_m (map (piece_item_m dflt) (split_route r3 0 [])) with
+  | Ok (names, its) =>
+      let st := match rem with [] => Ok None
+                | _ => match name_check rem with
+                       | Ok _ => Ok (Some rem) | CompileError => CompileError
+                       | Unsupported => Unsupported | FactsDrift => FactsDrift end
+                end in
+      match st with
+      | Ok st => if has_dup (names ++ match st with Some n => [n] | None => [] end) then CompileError
+                 else Ok (mkPat its st)
+      | CompileError => CompileError | Unsupported => Unsupported | FactsDrift => FactsDrift
+      end
+  | CompileError => match rem with [] => CompileError
+                    | _ => match name_check rem with Unsupported => Unsupported | _ => CompileError end end
+  | Unsupported => Unsupported
+  | FactsDrift => FactsDrift
+  end.
+Definition parse_pattern_m (O : oracle) (src : text) : res pat :=
+  if negb regex_sources_ok then FactsDrift else parse_core_m O (parse_reg_m default_hole_regex) src.
+
+(* the entries of a multi-atom placeholder (same name, consecutive) are one group: concatenate *)
+Fixpoint merge_dict (d : matchdict) : matchdict :=
+  match d with
+  | [] => []
+  | (k, MText v) :: r =>
+      match merge_dict r with
+      | (k', MText v') :: r' => if text_eqb k k' then (k, MText (v ++ v')) :: r'
+                                else (k, MText v) :: (k', MText v') :: r'
+      | r0 => (k, MText v) :: r0
+      end
+  | x :: r => x :: merge_dict r
+  end.
+Definition match_pat_m (O : oracle) (p : pat) (s : text) : option matchdict :=
+  option_map merge_dict (match_pat O p s).
+Definition spec_match_m (O : oracle) (p : pat) (s : text) : option matchdict :=
+  option_map merge_dict (spec_match O p s).
+
+Definition spec_parse_m (O : oracle) : text -> res pat := parse_core_m O (Some [spec_default_hole]).
+Definition spec_request_m (O : oracle) : list decl -> text -> option text -> spec_outcome :=
+  spec_request_with (spec_parse_m O) (spec_match_m O).
+(* single-atom instance of the specification that also speaks about failing declarations *)
+Definition spec_request_g (O : oracle) : list decl -> text -> option text -> spec_outcome :=
+  spec_request_with (parse_core O (Some spec_default_hole)) (spec_match O).
+
+(* printing of canonical patterns (round trip: Proofs/C01_b.v) *)
+Definition print_quant (lo : nat) (hi : option nat) : option text :=
+  match lo, hi with
+  | 1, None => Some [43%N]
+  | 0, None => Some [42%N]
+  | 0, Some 1 => Some [63%N]
+  | 1, Some 1 => Some []
+  | _, _ => None
+  end.
+Definition print_citem (i : citem) : text := match i with CChar c => [c] | CRange a b => [a; 45%N; b] end.
+Definition print_cls (c : cls) : text :=
+  match c with
+  | CSet neg its => 91%N :: (if neg then [94%N] else []) ++ flat_map print_citem its ++ [93%N]
+  | CDigit => [92%N; 100%N]
+  | CWord => [92%N; 119%N]
+  | CDot => [46%N]
+  end.
+Definition print_hre (h : hre) : text :=
+  print_cls (h_cls h) ++ match print_quant (h_lo h) (h_hi h) with Some q => q | None => [] end.
+Definition hre_eqb_default (h : hre) : bool :=
+  match h with
+  | mkHre (CSet true [CChar c]) 1 None => (c =? 47)%N
+  | _ => false
+  end.
+Definition print_item (i : item) : text :=
+  match i with
+  | Lit l => l
+  | Hole n h => if hre_eqb_default h then c_lbrace :: n ++ [c_rbrace]
+                else c_lbrace :: n ++ c_colon :: print_hre h ++ [c_rbrace]
+  end.
+Definition print_pat (p : pat) : text :=
+  flat_map print_item (items p) ++ match star p with Some n => c_star :: n | None => [] end.
+
 (* case   = [[wordchars; digitchars]; decls; [] | [PATH_INFO bytes]; method; mode]
             mode 0: RoutesMapper driven directly; mode 1: Configurator.add_route + Router
             (duplicate names conflict and a failing connect aborts the commit)
-   answer = [[statuses; routelist ids; static ids; outcome; trace]; spec] *)
+   answer = [[statuses; routelist ids; static ids; outcome; trace]; spec]
+   (multi-atom model and the specification that speaks about failing declarations) *)
 Definition run_C01 (v : val) : val :=
   ret_or_bad (
     match v with
@@ -703,15 +964,15 @@ Definition run_C01 (v : val) : val :=
         olet orc := get_oracle o in
         olet ds := get_list_of get_decl ds in
         olet raw := get_opt get_text raw in
-        let '(m, sts) := connect_all orc empty_mapper 0 ds in
+        let '(m, sts) := connect_all_with (parse_pattern_m orc) empty_mapper 0 ds in
         let router := negb (Z.eqb mode 0) in
         let model :=
           if router && (negb (forallb is_ok sts) || has_dup (map d_name ds))
           then VL [VL (map put_status sts); VL []; VL []; put_outcome OConfigError; VL []]
           else
-            let '(out, tr) := dispatch_request orc m method raw in
+            let '(out, tr) := dispatch_request_with (match_pat_m orc) m method raw in
             VL [VL (map put_status sts); put_ids (routelist m); put_ids (statics m); put_outcome out;
                 if router then VL [] else put_trace tr] in
-        Some (VL [model; put_spec (spec_request orc ds method raw)])
+        Some (VL [model; put_spec (spec_request_m orc ds method raw)])
     | _ => None
     end).
